@@ -61,6 +61,11 @@ class Canon:
         U = lambda k: proc.unescape(a[k])
         err = t['errno']
         if n == 'opendir':
+            # the model's opendir yields a close-on-exec stream (libc contract); the shim records the descriptor's flag
+            if not err and a.get('cloexec') != '1':
+                self.notes.append('opendir: the descriptor of the stream is not close-on-exec')
+                self.new(int(t['result']))
+                return 'opendir-without-cloexec %s = ok 0' % hx(U('path'))
             r = self.res(t) if err else 'ok %d' % self.new(int(t['result']))
             return 'opendir %s = %s' % (hx(U('path')), r)
         if n == 'readdir':
@@ -71,6 +76,11 @@ class Canon:
             else:
                 r = 'name %s' % hx(proc.unescape(t['result']))
             return 'readdir %d = %s' % (self.h(a['fd']), r)
+        if n == 'lseek' and (a.get('off', '0') != '0' or a.get('whence', 'SEEK_SET') != 'SEEK_SET'):
+            # the model's `lseek` IS lseek(fd, 0, SEEK_SET), the only form mdsort uses (message_get_fd rewinds the descriptor it hands to a
+            # command): a seek to any other position is not the modelled call
+            self.notes.append('lseek to offset %s %s' % (a.get('off'), a.get('whence')))
+            return 'lseek-to-%s-%s %d = %s' % (a.get('off'), a.get('whence'), self.h(a['fd']), self.res(t))
         if n in ('rewinddir', 'closedir', 'fsync', 'close', 'fflush', 'fclose', 'lseek'):
             h = self.h(a['fd'])
             line = '%s %d = %s' % (n, h, self.res(t))
@@ -89,6 +99,11 @@ class Canon:
             r = self.res(t) if err else 'ok %d' % self.new(int(t['result']))
             return '%s %d %s = %s' % (op, d, hx(U('path')), r)
         if n == 'open':
+            # the model's openPath IS open(path, O_RDONLY|O_CLOEXEC) (Model/Fds.lean: C13_fd_hygiene rests on it)
+            fl = a.get('flags', '')
+            if set(fl.split('|')) != {'O_RDONLY', 'O_CLOEXEC'}:
+                self.notes.append('open with flags %s' % fl)
+                return 'open-flags-%s %s = ok 0' % (fl.replace('|', '+'), hx(U('path')))
             r = self.res(t) if err else 'ok %d' % self.new(int(t['result']))
             return 'openpath %s = %s' % (hx(U('path')), r)
         if n == 'fopen':
@@ -99,6 +114,10 @@ class Canon:
         if n == 'write':
             return 'write %d %s = %s' % (self.h(a['fd']), a.get('n', '0'), self.res(t, int(t['result']) if not err else 0))
         if n == 'fcntl':
+            # the model's dupfd IS fcntl(fd, F_DUPFD_CLOEXEC, 0); the shim logs no other command, checked here all the same
+            if a.get('cmd', 'F_DUPFD_CLOEXEC') != 'F_DUPFD_CLOEXEC':
+                self.notes.append('fcntl command %s' % a.get('cmd'))
+                return 'fcntl-%s %d = ok 0' % (a.get('cmd'), self.h(a['fd']))
             src = self.h(a['fd'])
             r = self.res(t) if err else 'ok %d' % self.new(int(t['result']))
             return 'dupfd %d = %s' % (src, r)
@@ -126,6 +145,13 @@ class Canon:
             return 'utimensat %d %s %s %s = %s' % (self.h(a['dirfd']), hx(U('path')), tm(a.get('atime', 'NOW')), tm(a.get('mtime', 'NOW')),
                                                    self.res(t))
         if n in ('mkostemp', 'mkstemp'):
+            # the model's mkostemp IS mkostemp(template, O_CLOEXEC): plain mkstemp, or mkostemp without the flag, is another call
+            fl = a.get('flags', '')
+            if n == 'mkstemp' or 'O_CLOEXEC' not in fl.split('|'):
+                self.notes.append('%s without O_CLOEXEC (flags %s)' % (n, fl or '-'))
+                if not err:
+                    self.new(int(t['result']))
+                return '%s-without-cloexec %s = ok 0' % (n, hx(U('template')))
             r = self.res(t) if err else 'ok %d' % self.new(int(t['result']))
             return 'mkostemp %s = %s' % (hx(U('template')), r)
         if n == 'mkdtemp':
